@@ -62,7 +62,9 @@ def run_both(case, method="collect", n=None):
         return out, None, f"unmodelled syntax: {e}"
     except Exception as e:  # noqa: BLE001  (the structural validation of the match part failed)
         return out, None, f"match part does not validate: {e.__class__.__name__}"
-    req = {"op": "interp", "scan": case["scan"], "recs": recs, "prog": prog, "and": case["and"], "method": method}
+    req = {"op": "interp", "scan": case["scan"], "recs": recs, "prog": prog, "and": case["and"], "method": method,
+           "metadata": {"d": [[str(k), str(v)] for k, v in (p.metadata or {}).items() if isinstance(v, str)]},
+           "static": {"d": [["identity", p.identity], ["delimiter", p.delimiter], ["quotechar", p.quotechar]]}}
     if n is not None:
         req["n"] = n
     m = driver.ask(req)
